@@ -14,6 +14,8 @@ import YalafiVerif.Generated.WF
 import YalafiVerif.Proofs.PlainUnknown
 import YalafiVerif.Generated.Init
 import YalafiVerif.Properties.PlainUnkn2Stmt
+import YalafiVerif.Properties.PlainMix3Stmt
+import YalafiVerif.Proofs.UnknGeneral
 namespace Yalafi
 
 /-- what `addUnknown` does to the state -/
@@ -112,6 +114,66 @@ theorem C19_example_current :
     SegsOk Generated.theTables Generated.stDefault
       [.txt "Hello ".toList, .cw "foo".toList, .txt " world ".toList, .cw "bar".toList, .cw "foo".toList, .txt ", end.".toList] ∧
     ¬ SegsOk Generated.theTables Generated.stDefault [.txt "Use ".toList, .cw "LaTeX".toList, .txt " here.".toList] := by
+  decide +kernel
+
+/-! ### the OUTPUT of `--unkn`, for every source text (Proofs/UnknGeneral.lean) -/
+
+/-- **for every source text**: option `--unkn` does not change the run of the filter; the result is the result without
+    the option with the text replaced by the unknowns, one per line in their order (first use), and every position the
+    dummy number -/
+theorem C19_unkn_commutes (T : PTables) (fuel : Nat) (latex : Str) (o : Options) (thresh : Nat) (fs : FS)
+    (r0 : T2TResult)
+    (h0 : tex2txt T fuel latex { o with unkn := false } false thresh fs = .ok r0) :
+    tex2txt T fuel latex { o with unkn := true } false thresh fs =
+      .ok { r0 with txt := unknText r0.unknowns, pos := List.replicate (unknText r0.unknowns).length 1 } :=
+  tex2txt_unkn_commutes T fuel latex o thresh fs r0 h0
+
+theorem C19_unkn_output (T : PTables) (fuel : Nat) (latex : Str) (o : Options) (thresh : Nat) (fs : FS)
+    (r : T2TResult) (hu : o.unkn = true)
+    (h : tex2txt T fuel latex o false thresh fs = .ok r) :
+    r.txt = unknText r.unknowns ∧ r.pos = List.replicate r.txt.length 1 :=
+  tex2txt_unkn_output T fuel latex o thresh fs r hu h
+
+/-- **end to end with `--unkn`** on the 22-kind union grammar: the printed text is exactly the list of the names that are
+    undeclared at their use in the text (`unkNames`: undeclared control words, uses of a user macro before its
+    definition; names in formulas, displayed equations, comments, `\verb` are not among them), each once, in order of
+    first use, one per line -/
+theorem C19_unkn_output_mix3 (T : PTables) (o : Options) (fs : FS) (thresh : Nat)
+    (segs : List PlainMix3.Seg) (fuel : Nat) (st1 : PState) (repls drepls : List Str)
+    (hdefs : o.defs = []) (hextr : o.extr = []) (hrepl : o.hasRepl = false) (hunkn : o.unkn = true)
+    (hinit : initParser T fuel o (initialState T o false fs) = .ok ((), st1))
+    (hok : PlainMix3.SegsOk T st1 repls drepls segs)
+    (hf : (PlainMix3.render segs).length + PlainMix3.inserted [] 0 segs + 6 ≤ fuel) :
+    ∃ r, tex2txt T fuel (PlainMix3.render segs) o false thresh fs = .ok r ∧
+      r.txt = unknText ((PlainMix3.unkNames [] segs).eraseDups) ∧
+      r.pos = List.replicate r.txt.length 1 ∧
+      r.unknowns = (PlainMix3.unkNames [] segs).eraseDups := by
+  obtain ⟨r0, h0, _, _, hu, _⟩ :=
+    C03_mix3_e2e T { o with unkn := false } fs thresh segs fuel st1 repls drepls hdefs hextr hrepl rfl hinit hok hf
+  have h1 := tex2txt_unkn_commutes T fuel (PlainMix3.render segs) o thresh fs r0 h0
+  have ho : ({ o with unkn := true } : Options) = o := by cases o; simp_all
+  rw [ho] at h1
+  refine ⟨_, h1, ?_, ?_, ?_⟩
+  · simp [hu]
+  · simp
+  · simp [hu]
+
+/-- … on the tables translated from /repo, with `Options(unkn=True)`, for the 17-line example document that uses all 22
+    kinds: the side conditions hold (`C03_mix3_example_current`), and the printed list is `\pair` (the one use that
+    precedes its definition), `\textbf`, `\emph` (not declared by YaLafi without packages), `\foo`, `\bar`; `\alpha` in the
+    formula and the later uses of `\pair` are not listed -/
+theorem C19_unkn_output_mix3_current (thresh : Nat) :
+    ∃ r, tex2txt Generated.theTables Generated.bigFuel (PlainMix3.render C03_mix3_doc)
+          { Generated.defaultOptions with unkn := true } false thresh [] = .ok r ∧
+      r.txt = unknText ((PlainMix3.unkNames [] C03_mix3_doc).eraseDups) ∧
+      r.pos = List.replicate r.txt.length 1 ∧
+      r.unknowns = (PlainMix3.unkNames [] C03_mix3_doc).eraseDups :=
+  C19_unkn_output_mix3 Generated.theTables { Generated.defaultOptions with unkn := true } [] thresh C03_mix3_doc
+    Generated.bigFuel Generated.stDefault C03_mix3_repls C03_mix3_drepls rfl rfl rfl rfl
+    Generated.initParser_default C03_mix3_example_current C03_mix3_example_fuel
+
+theorem C19_unkn_output_mix3_example :
+    unknText ((PlainMix3.unkNames [] C03_mix3_doc).eraseDups) = "\\pair\n\\textbf\n\\emph\n\\foo\n\\bar\n".toList := by
   decide +kernel
 
 end Yalafi
